@@ -353,6 +353,48 @@ func c20Count(nodes []*c20Node) int {
 	return c
 }
 
+// Harness_C20_Names: one file whose 6-byte name is symbolic (any bytes a file
+// name may hold) next to a user file: it is removed iff it really carries the
+// generated-code suffix.
+func Harness_C20_Names() {
+	name := verif.String(6)
+	for i := 0; i < len(name); i++ {
+		verif.Assume(name[i] != '/' && name[i] != 0)
+	}
+	verif.Assume(name != "keep.x")
+	nodes := []*c20Node{{name: name}, {name: "keep.x"}}
+	root := &c20Node{name: "t", dir: true, children: nodes}
+	c20Cwd = &c20Node{name: "", dir: true, children: []*c20Node{root}}
+	native := verif.Native()
+	var tmp, oldwd string
+	if native {
+		var err error
+		tmp, err = os.MkdirTemp("", "c20n-")
+		if err != nil {
+			panic(err)
+		}
+		oldwd, _ = os.Getwd()
+		defer func() { os.Chdir(oldwd); os.RemoveAll(tmp) }()
+		os.Mkdir(filepath.Join(tmp, "t"), 0o755)
+		c20Materialise(filepath.Join(tmp, "t"), nodes)
+		os.Chdir(tmp)
+	}
+	c20Removes = 0
+	err := CleanTargetDir("t")
+	verif.Assert(err == nil, "CleanTargetDir failed")
+	if native {
+		c20Sync(filepath.Join(tmp, "t"), nodes)
+	}
+	owned := strings.HasSuffix(name, ".gr.go")
+	verif.Assert(nodes[0].gone == owned, "a file was removed although its name does not end in the generated-code suffix (or a generated file survived): "+name)
+	verif.Assert(!nodes[1].gone, "the user file was removed")
+	if owned {
+		verif.Cover("owned")
+	} else {
+		verif.Cover("not-owned")
+	}
+}
+
 func Harness_C20_Twin(width int) {
 	nodes := c20Build(1, width, "")
 	c20Cwd = &c20Node{name: "", dir: true, children: []*c20Node{{name: "t", dir: true, children: nodes}}}
